@@ -128,39 +128,42 @@ DERIVED = {"n_values", "n_cells", "n_vertices", "centroids", "parts", "comments"
 
 
 def _described(sc, it, ref, users_of_type):
-    """Entity link names the item describes (before closing under descendants), from the role of its node (property text)."""
+    """(entities the item may legitimately affect, entities it describes), as entity link names before closing under
+    descendants, from the role of the item's node (property text).  A type, a type container or a project attribute describes
+    no entity, but the entities using the type may change with it."""
     nodes = sc["nodes"]
     role, name, owner = it["role"], it["name"], it["owner"]
     if role == "workspace":
         if it["t"] == "attr":
-            return []
+            return [], []
         if name in ("Data", "Groups", "Objects"):
-            return [n for n, _ in nodes[it["target"]]["links"]]
+            e = [n for n, _ in nodes[it["target"]]["links"]]
+            return e, e
         if name == "Types":
-            return list(ref["entities"])
+            return ["{" + u + "}" for u in ref["entities"]], []
         if name == "Root":
-            return [it.get("target_owner")]
-        return []
+            return [it.get("target_owner")], [it.get("target_owner")]
+        return [], []
     if role.startswith("flat:") or role.startswith("children:"):
-        return [name]
+        return [name], [name]
     if role.startswith("entity:"):
         if it["t"] == "link" and it["target_role"].startswith("children:"):
-            return [n for n, _ in nodes[it["target"]]["links"]]
-        return [owner]
+            e = [n for n, _ in nodes[it["target"]]["links"]]
+            return e, e
+        return [owner], [owner]
     if role in ("pgs", "pg", "concat", "concatitem", "dataset", "other"):
-        return [owner]
+        return [owner], [owner]
     if role == "types":
-        return list(ref["entities"])
+        return ["{" + u + "}" for u in ref["entities"]], []
     if role.startswith("typeflat:"):
-        return users_of_type(nodes[it["target"]])
+        return users_of_type(nodes[it["target"]]), []
     if role.startswith("type:"):
-        return users_of_type(nodes[it["node"]])
+        return users_of_type(nodes[it["node"]]), []
     if role == "typedataset":
-        # owner is the type's link name
-        for nd in nodes.values():
+        for nd in nodes.values():  # owner is the type's link name
             if nd["role"].startswith("type:") and nd["owner"] == owner:
-                return users_of_type(nd)
-    return []
+                return users_of_type(nd), []
+    return [], []
 
 
 def drive_one(case, work):
@@ -222,7 +225,9 @@ def drive_one(case, work):
                 if isinstance(e.get("entity_type"), dict) and str(e["entity_type"].get("uid", "")).lower() == tid]
 
     items = sc["items"]
-    res = {"family": fam, "n_items": len(items), "n_nodes": len(sc["nodes"]), "ref_open": ref["open"], "ref_hash_changed": ref_hash_changed,
+    vs = ref["project"].get("version")
+    version_sensitive = bool(isinstance(vs, (int, float)) and vs <= 1.0) and any("Drillhole" in e["class"] for e in ref["entities"].values())
+    res = {"version_sensitive": version_sensitive, "family": fam, "n_items": len(items), "n_nodes": len(sc["nodes"]), "ref_open": ref["open"], "ref_hash_changed": ref_hash_changed,
            "spec": spec, "spec_why": why, "n_ref_entities": len(ref["entities"]),
            "entities": {str(o(u)): f"{e['class']}:{e.get('name')}" for u, e in ref["entities"].items()},
            "kinds_total": len({it["kind"] for it in items}), "obs": []}
@@ -237,9 +242,13 @@ def drive_one(case, work):
         ob = {"i": i, "kind": it["kind"], "t": it["t"], "name": it["name"], "role": it["role"], "where": it["h5path"].split("/", 2)[-1][-90:],
               "mitem": I.model_item(sc, it) if spec is not None else None,
               "hash_changed": I.sha256(dmg) != h}
-        droots = [d.strip("{}") for d in _described(sc, it, ref, users_of_type) if d]
-        dset = descendants([d for d in droots if d in ref["entities"]])
+        perm, desc = _described(sc, it, ref, users_of_type)
+        dset = descendants([d.strip("{}") for d in perm if d and d.strip("{}") in ref["entities"]])
+        if it["kind"] == "link|workspace|Root":  # the Root link describes the root group only: the hierarchy is in the child containers
+            dset = {d.strip("{}") for d in perm if d}
         ob["described"] = sorted(x for x in (o(u) for u in dset) if x is not None)
+        ob["described_roots"] = sorted(x for x in (o(d.strip("{}")) for d in desc if d and d.strip("{}") in ref["entities"]) if x is not None)
+        ob["is_root_item"] = bool(ref["root"] and ("{" + ref["root"] + "}") in [d for d in desc if d])
         ob["empty_container"] = bool(it["t"] == "link" and it.get("target_role", "").startswith("children:")
                                      and not sc["nodes"][it["target"]]["links"])
         if w["open"] != "ok":
@@ -249,18 +258,22 @@ def drive_one(case, work):
             lost = sorted(set(ref["entities"]) - set(w["entities"]))
             new = sorted(set(w["entities"]) - set(ref["entities"]))
             anc = ancestors(dset)
+            sib_parents = {parent.get(u) for u in dset}
+            root_replaced = w["root"] is not None and w["root"] not in ref["entities"]
             alt_own, alt_der, detail = [], [], {}
             for u, a in ref["entities"].items():
                 b = w["entities"].get(u)
                 if b is None:
                     continue
+                if root_replaced and b.get("parent") == w["root"] and a.get("parent") == ref["root"]:
+                    b = dict(b, parent=ref["root"])  # still a child of the (rebuilt) root
                 diff = [k for k in a if a[k] != b.get(k)]
                 own = [k for k in diff if k not in DERIVED]
                 der = [k for k in diff if k in DERIVED and k != "children"]
                 if own:
                     alt_own.append(o(u))
                     detail[str(o(u))] = own[:6]
-                elif der and u not in anc and u not in dset:
+                elif der and u not in anc and u not in dset and parent.get(u) not in sib_parents:
                     alt_der.append(o(u))
                     detail[str(o(u))] = der[:6]
             # children lists: compared outside the described set, ignoring described members
@@ -351,7 +364,7 @@ ERRS = {"KeyError": "KeyError", "TypeError": "TypeError", "UserWarning": "UserWa
 
 
 def _obs_term(ob):
-    if ob["mitem"] is None:
+    if ob["mitem"] is None or ob.get("skip_model"):
         return None
     if ob["open"] != "ok":
         e = ERRS.get(ob["open"]["exc"])
@@ -375,6 +388,8 @@ def case_term(case, obs):
         terms.append("scan_matchb s %s" % sc)
         terms.append("intact_ok %s s" % cnat(FUEL))
     for ob in obs["obs"]:
+        if obs.get("version_sensitive") and ob["kind"] == "attr|workspace|Version":
+            continue  # the Version-dependent choice of concatenated drillhole classes is not modelled
         t = _obs_term(ob)
         if t is not None:
             terms.append(t)
@@ -419,6 +434,8 @@ def classify(ob, docs):
         if ob["kind"].split("|")[2] in ("Data", "Groups", "Objects") and role != "entity:Data":
             return "optional" if ob.get("empty_container") else "mandatory"
         sec = {"entity:Groups": "group", "entity:Objects": "object", "entity:Data": "data"}[role]
+        if "Concatenated" in name:
+            return "mandatory"                                         # the v2 block that holds the group's drillholes
         return "optional" if doc.get((sec, name), True) else "mandatory"  # datasets, by the document
     if role in ("pgs", "pg"):
         return "optional"
@@ -452,11 +469,11 @@ def oracle(case, obs):
         lost_out = [x for x in ob["lost"] if x not in D]
         alt_out = [x for x in ob["alt_own"] + ob["alt_derived"] if x not in D]
         kids_out = [x for x in ob["kids_bad"] if x not in D]
-        if lost_out:
-            fails.append({"key": f"unaffected-entity-lost:{kind}", "what": f"{where}: entities not described by the item are missing: {names(lost_out)}"})
-        if alt_out or kids_out:
+        if lost_out or alt_out or kids_out:
             what = "; ".join(f"{ents.get(str(x), x)}{ob['detail'].get(str(x), ['children'])}" for x in sorted(set(alt_out + kids_out)))
-            fails.append({"key": f"unaffected-entity-altered:{kind}", "what": f"{where}: entities not described by the item changed: {what}"})
+            fails.append({"key": f"unaffected-entity-{'lost' if lost_out else 'altered'}:{kind}",
+                          "what": f"{where}: entities not described by the item are "
+                                  + (f"missing: {names(lost_out)}; " if lost_out else "") + (f"changed: {what}" if what else "")})
         if ob["proj_changed"] and not (ob["role"] == "workspace" and ob["t"] == "attr"):
             fails.append({"key": f"project-attributes-altered:{kind}", "what": f"{where}: project attributes changed"})
         if cls == "optional":
@@ -464,26 +481,26 @@ def oracle(case, obs):
             if [x for x in ob["lost"] if x in D] and not kind.startswith("link|entity") and kind != "link|workspace|Root":
                 fails.append({"key": f"optional-deletion-loses-entity:{kind}", "what": f"{where}: {names(ob['lost'])} left out although the item is optional"})
         else:
-            kept = [x for x in D if x not in ob["lost"]]
-            if kept and D:
-                # mandatory item missing, no error, described entities still returned (with defaults / a new identifier)
-                fails.append({"key": f"mandatory-missing-entity-kept:{_kept_class(ob)}",
-                              "what": f"{where}: mandatory item missing but no error and {names(sorted(kept)[:4])} still returned"})
+            kept = [x for x in ob.get("described_roots", []) if x not in ob["lost"]]
+            if kept:
+                # mandatory item missing, no error, and a described entity is still returned (defaults / a new identifier)
+                fails.append({"key": f"mandatory-item-defaulted:{_kept_class(ob)}",
+                              "what": f"{where}: mandatory item missing, no error, and {names(sorted(kept)[:4])} is still returned "
+                                      f"(changed: {ob['detail'].get(str(kept[0]), 'nothing observable')})"})
     return fails
 
 
 def _kept_class(ob):
     role, name, t = ob["role"], ob["name"], ob["t"]
-    if t == "attr":
-        base = role.split(":")[0]
-        return f"attr-{base}-{name.replace(' ', '_')}"
-    if role == "workspace" or role == "types" or role.startswith("typeflat:"):
-        return "types-container"
-    if role.startswith("entity:"):
-        return "dataset-link"
+    if t == "attr" and role.startswith("entity:"):
+        return "entity-" + name if name in ("ID", "Name") else "entity-attribute"
+    if ob.get("is_root_item") and (role == "workspace" or role.startswith("flat:")):
+        return "root-flat-entry"
+    if role.startswith("entity:") and t == "link" and name != "Type":
+        return "dataset"
     if role in ("concat", "concatitem"):
         return "concatenated-block"
-    return f"link-{role.split(':')[0]}"
+    return f"{t}-{role.split(':')[0]}-{name if not name.startswith('{') else 'uid'}"
 
 
 def nontrivial(case, obs):
